@@ -456,9 +456,20 @@ fn run_entry(i: usize, sc: &Scenario, maps: &Maps, out: &mut Vec<Value>, checks:
             // hit results given BEFORE the builder changes its mode must mean what they mean when given afterwards
             // (every generic setter has one meaning per mode: n100 = droplets, n50 = tiny droplets, ... )
             *checks += 1;
-            fn hits<'m>(p: Performance<'m>) -> Performance<'m> {
-                p.n300(5).n100(3).n50(2).misses(1).combo(4)
+            // (the score specification varies with the scenario: explicit results, the hit result priority alone - consulted when
+            //  no accuracy is given -, accuracy + priority, partial results + priority)
+            let variant = i % 4;
+            fn hits_v<'m>(p: Performance<'m>, variant: usize) -> Performance<'m> {
+                use rosu_pp::any::HitResultPriority;
+                match variant {
+                    0 => p.n300(5).n100(3).n50(2).misses(1).combo(4),
+                    1 => p.hitresult_priority(HitResultPriority::WorstCase).misses(2),
+                    2 => p.accuracy(87.5).hitresult_priority(HitResultPriority::WorstCase).misses(1),
+                    // (n_geki / n_katu exist only on the mania builder: given to an osu! builder they are documented no-ops, so not here)
+                    _ => p.n300(3).n50(1).hitresult_priority(HitResultPriority::WorstCase),
+                }
             }
+            let hits = |p| hits_v(p, variant);
             let before = guarded(|| {
                 let p = if sc.entry == "map_ref" { Performance::new(osu_map) } else { Performance::new(osu_map.clone()) };
                 let mut p = hits(p.mods(mk_mods(0))).try_mode(gmode).ok().expect("osu map converts");
